@@ -34,11 +34,13 @@ TOL = 1e-8          # parameter stream and the oracle (norm-wise)
 # cond(C) <= 1e8 and 3e-10 at 1e9; histories are cut once cond(C) > 1e8.  A wrong coefficient changes
 # the result by 1e-2 or more.
 TOL_RUN = 1e-6
-RULE = ("fixed case list per (tier, seed): 18 structured + 1800 (thorough up to 6000, cut deterministically by a 1.5 GB protocol-volume cap) random histories, the parameter sweep "
+RULE = ("fixed case list per (tier, seed): 37 structured + 1800 (thorough up to 6000, cut deterministically by a 1.5 GB protocol-volume cap) random histories, the parameter sweep "
         "+ 150 (1500) random rate sets, 60 (600) sorts; QUICK EXPLORES DIMENSIONS 2..8 ONLY, 9..20 are thorough-only. "
         "params: dims 2..8 (thorough 2..20) x lambda 4..14 x mu {default, 1, lambda/3, lambda} x 3 schemes, plus "
         "random user-supplied rates; runs: random (dim, lambda>=4, mu<=lambda, scheme, default or user-supplied "
-        "cs/damps/ccum/ccov1/ccovmu, centroid, sigma, identity/diagonal/random SPD cmatrix with cond 1e1..1e5) "
+        "cs/damps/ccum/ccov1/ccovmu, centroid given as floats / ints only (list, tuple, range, int ndarray, [0]*n) / mixed, "
+        "sigma, identity/diagonal/random SPD cmatrix with cond 1e1..1e5, or a well-conditioned cmatrix carrying the scale "
+        "(variances 1e-30..1e-16 and 1e8..1e20)) "
         "on sphere/rosenbrock/linear/ellipsoid/step(ties)/const/two-objective fitnesses for 1..50 generations "
         "(generations with tied fitnesses and the four runs with cs in {0, 2} are compared with the model only), "
         "list and ndarray individuals, minimising and maximising weights. "
@@ -296,17 +298,61 @@ class ArrInd(numpy.ndarray):
 
 
 def make_cmatrix(kind, n, rs):
+    """(matrix or None, scale): `scale` = magnitude of the eigenvalues.  The kinds `tiny*` / `huge*` carry the
+    scale of the search space in the covariance matrix instead of sigma (variances 1e-30..1e-16 resp.
+    1e8..1e20, well conditioned): everything in the statement is scale-free, absolute thresholds are not."""
     if kind == "id":
-        return None
+        return None, 1.0
     if kind == "diag":
-        return numpy.diag(numpy.exp(rs.uniform(-2.0, 2.0, n)))
+        return numpy.diag(numpy.exp(rs.uniform(-2.0, 2.0, n))), 1.0
+    if kind in ("tinydiag", "hugediag", "tinyspd", "hugespd"):
+        scale = 10.0 ** (rs.uniform(-30.0, -16.5) if kind.startswith("tiny") else rs.uniform(8.0, 20.0))
+        ev = scale * 10.0 ** rs.uniform(-1.0, 0.0, n)
+        if kind.endswith("diag"):
+            return numpy.diag(ev), scale
+        Q, _ = numpy.linalg.qr(rs.standard_normal((n, n)))
+        A = (Q * ev) @ Q.T
+        return (A + A.T) / 2.0, scale
     condexp = {"spd1": 1.0, "spd3": 3.0, "spd5": 5.0}[kind]
     Q, _ = numpy.linalg.qr(rs.standard_normal((n, n)))
     ev = 10.0 ** rs.uniform(-condexp, 0.0, n)
     ev[0], ev[-1] = 10.0 ** -condexp, 1.0
     ev = ev * 10.0 ** rs.uniform(-1.0, 1.0)
     A = (Q * ev) @ Q.T
-    return (A + A.T) / 2.0
+    return (A + A.T) / 2.0, 1.0
+
+
+SCALED_CM = ("tinydiag", "hugediag", "tinyspd", "hugespd")
+INT_CENTROIDS = ("intlist", "tuple", "range", "intarray", "zeros")
+
+
+def make_centroid(desc, n, rs, scale):
+    """(object passed to Strategy, its float values).  `ctype` = how the documented 'iterable' start point is
+    given: floats (list), or integers only (list of ints, tuple, range, int ndarray, [0]*n) — numpy.array() of
+    those is an integer array; `mixed` = ints with one float (float dtype, control)."""
+    ctype = desc.get("ctype", "float")
+    if ctype == "float" or desc.get("cm") in SCALED_CM:
+        c = rs.uniform(-desc.get("cscale", 3.0), desc.get("cscale", 3.0), n)
+        if desc.get("cm") in SCALED_CM:
+            c = c * 10.0 * math.sqrt(scale)         # start a few standard deviations away, not 1e9 of them
+        return [float(x) for x in c], c
+    ints = [int(v) for v in rs.randint(-5, 6, n)]
+    if ctype == "intlist":
+        obj = list(ints)
+    elif ctype == "tuple":
+        obj = tuple(ints)
+    elif ctype == "range":
+        k = int(ints[0])
+        obj, ints = range(k, k + n), list(range(k, k + n))
+    elif ctype == "intarray":
+        obj = numpy.array(ints, dtype=int)
+    elif ctype == "zeros":
+        obj, ints = [0] * n, [0] * n
+    elif ctype == "mixed":
+        obj = [float(ints[0])] + ints[1:]
+    else:
+        raise ValueError(ctype)
+    return obj, numpy.array(ints, dtype=float)
 
 
 def objective(desc, n):
@@ -334,7 +380,8 @@ def objective(desc, n):
 def build_strategy(desc):
     n = desc["dim"]
     rs = numpy.random.RandomState(desc["cseed"])
-    centroid = rs.uniform(-desc.get("cscale", 3.0), desc.get("cscale", 3.0), n)
+    cm, scale = make_cmatrix(desc.get("cm", "id"), n, numpy.random.RandomState(desc["cseed"] + 104729))
+    cobj, centroid = make_centroid(desc, n, rs, scale)
     kargs = {}
     if desc.get("lam") is not None:
         kargs["lambda_"] = desc["lam"]
@@ -345,10 +392,9 @@ def build_strategy(desc):
     for k in RATES:
         if k in desc.get("over", {}):
             kargs[k] = desc["over"][k]
-    cm = make_cmatrix(desc.get("cm", "id"), n, rs)
     if cm is not None:
         kargs["cmatrix"] = cm
-    st = cma.Strategy(centroid=[float(x) for x in centroid], sigma=desc["sigma"], **kargs)
+    st = cma.Strategy(centroid=cobj, sigma=desc["sigma"], **kargs)
     return st, centroid, cm
 
 
@@ -592,6 +638,8 @@ def eval_run(d):
     over = "user" if d.get("over") else "default"
     tag = "run/%s/%s/%s/%s%s" % (d.get("scheme") or "superlinear(default)", d["obj"], over, d.get("cm", "id"),
                                  "/ties" if ties_seen else "")
+    if d.get("ctype", "float") in INT_CENTROIDS and d.get("cm") not in SCALED_CM:
+        tag += "/int-centroid"
     for t in sorted(set(tags)):
         tag += "/" + t
     return Case(d, lines, expect, orc, tag=tag, tol=TOL_RUN)
@@ -653,7 +701,8 @@ def rand_run(rng, maxdim, long_ok=True):
     d["zseed"] = rng.randrange(1 << 30)
     d["sigma"] = rng.choice([1.0, 0.5, 2.0, round(10.0 ** rng.uniform(-2, 1), 6)])
     d["cscale"] = rng.choice([3.0, 0.5, 10.0])
-    d["cm"] = rng.choice(["id", "id", "diag", "spd1", "spd3", "spd5"])
+    d["cm"] = rng.choice(["id", "id", "diag", "spd1", "spd3", "spd5", "tinydiag", "tinyspd", "hugediag", "hugespd"])
+    d["ctype"] = rng.choice(["float", "float", "float", "mixed"] + list(INT_CENTROIDS))
     d["obj"] = rng.choice(["sphere", "sphere", "rosenbrock", "rosenbrock", "linear", "linear", "ellipsoid",
                            "step", "const", "two"])
     if d["obj"] == "two":
@@ -690,6 +739,25 @@ def generate(tier, rng, mult):
     d = rand_run(rng, maxdim)
     d.update({"ngen": 50, "obj": "linear", "fw": [-1.0], "cm": "spd3"})
     yield d
+    # start point given with integer coordinates only (numpy.array() of it is an integer array)
+    for ctype in INT_CENTROIDS + ("mixed",):
+        d = rand_run(rng, maxdim, long_ok=False)
+        d.update({"ctype": ctype, "cm": rng.choice(["id", "diag", "spd1"]), "obj": rng.choice(["sphere", "rosenbrock", "linear"]),
+                  "fw": [-1.0]})
+        yield d
+    # the scale of the search space carried by cmatrix (variances 1e-30..1e-16 / 1e8..1e20) instead of sigma
+    for cmk in SCALED_CM + SCALED_CM:
+        d = rand_run(rng, maxdim, long_ok=False)
+        d.update({"cm": cmk, "ctype": "float", "obj": rng.choice(["sphere", "rosenbrock", "linear", "ellipsoid"]),
+                  "fw": [-1.0], "sigma": rng.choice([1.0, 2.0, 0.5])})
+        yield d
+    # user-supplied learning rates that are exactly zero (boundary of the range: rank-one-only / rank-mu-only /
+    # no covariance adaptation), as float and as int
+    for over in ({"ccovmu": 0.0}, {"ccov1": 0.0}, {"ccov1": 0.0, "ccovmu": 0.0}, {"ccum": 0.0}, {"ccov1": 0, "ccovmu": 0}):
+        d = rand_run(rng, maxdim, long_ok=False)
+        d.update({"over": dict(over), "obj": rng.choice(["sphere", "rosenbrock", "linear"]), "fw": [-1.0],
+                  "cm": rng.choice(["id", "spd1"]), "ctype": "float"})
+        yield d
     # outside the guard 0 < cs < 2 (flagged `degenerate-cs`, model comparison only)
     for cs in (0.0, 2.0, 0.0, 2.0):
         d = rand_run(rng, maxdim, long_ok=False)
@@ -717,6 +785,11 @@ def generate(tier, rng, mult):
                     yield {"k": "params", "dim": n, "lam": lam, "mu": mu, "scheme": scheme, "over": {}}
     for scheme in ("cubic", "", "Linear"):
         yield {"k": "params", "dim": 3, "lam": 6, "mu": None, "scheme": scheme, "over": {}}
+    for k in ("ccov1", "ccovmu", "ccum"):                     # exactly-zero user rates, float and int
+        for z in (0.0, 0):
+            for scheme in SCHEMES:
+                yield {"k": "params", "dim": rng.randint(2, maxdim), "lam": rng.randint(4, 14), "mu": None,
+                       "scheme": scheme, "over": {k: z}}
     for _ in range(N_PARAMS[tier] * mult):
         n = rng.randint(2, maxdim)
         lam = rng.randint(4, 40)
@@ -753,6 +826,8 @@ def shrink(d):
             yield dict(d, over={a: b for a, b in d["over"].items() if a != k})
     if d.get("cm", "id") != "id":
         yield dict(d, cm="id")
+    if d.get("ctype", "float") != "float":
+        yield dict(d, ctype="float")
     if d["obj"] != "sphere":
         yield dict(d, obj="sphere", fw=[-1.0])
     if d.get("perm"):
